@@ -73,6 +73,8 @@ def cases(tier, seed=0):
             cs.append((kind, dt, 'sum', None))
             cs.append((kind, dt, 'star', None))
             cs.append((kind, dt, 'from_int', None))
+            if kind == 'log':
+                cs.append((kind, dt, 'star_absorb', None))
             cs.append((kind, dt, 'eye', None))
             # binary ops on Tensors
             for op in ('add', 'mul', 'sub'):
@@ -131,6 +133,20 @@ def run_case(col, case):
         xs = [V.elem('x0', kind, 'T')]
         y = V.elem('y', kind, 'T')
         body = lambda: claims_of(B, L.law_star(B, xs, y))
+        key = (kind, dt, law)
+    elif law == 'star_absorb':
+        # the one float-rounding effect this check models: exp(x) rounds to 1.0 for x in (log(1-u), 0), u = half an ulp of 1
+        u = 2.0 ** -25 if dt == 'float32' else 2.0 ** -54
+        xs = [V.elem('x0', kind, 'P')]
+        v = z3.Real('x0')
+        V.assumptions += [v < 1, 1 - v < z3.Q(1, 2 ** (25 if dt == 'float32' else 54))]
+
+        def body():
+            sx.EXP_ABSORB[0] = u
+            try:
+                return claims_of(B, L.law_star_absorb(B, xs))
+            finally:
+                sx.EXP_ABSORB[0] = None
         key = (kind, dt, law)
     elif law == 'from_int':
         m, n = z3.Int('m'), z3.Int('n')
